@@ -94,15 +94,23 @@ PickProg == /\ phase = "pick"
                   /\ stim' = [p |-> p, form |-> f, lead |-> DefaultLead(f), ws |-> w, blank |-> b, trailer |-> t]
             /\ phase' = "start" /\ UNCHANGED s
 PreOf(p) == <<N("before"), I(1), X("def")>> \o PreExtra(p) \o <<X("currentfile"), X("eexec")>>
+\* the operation budget runs out inside (or around) the section: plaintexts 1, 2, 13 under every budget
+\* up to BudgetMax in one form (C11: the budget error surfaces with NumOps = N + 1 there too)
+BudgetMax == 45
+PickBudget == /\ phase = "pick"
+              /\ \E p \in {1, 2, 13}, f \in {"bin", "hexlower"}, b \in 1..BudgetMax :
+                    stim' = [p |-> p, form |-> f, lead |-> DefaultLead(f), ws |-> (IF f = "bin" THEN "none" ELSE "lines64"),
+                             blank |-> "sp", trailer |-> (IF p = 13 THEN "none" ELSE "tokens"), budget |-> b]
+              /\ phase' = "start" /\ UNCHANGED s
 Feed(st) == PreOf(st.p) \o Plains[st.p] \o Trailer(st.trailer)
 Start == /\ phase = "start" /\ phase' = "run"
-         /\ s' = FreshState(Feed(stim), 0) /\ UNCHANGED stim
+         /\ s' = FreshState(Feed(stim), IF "budget" \in DOMAIN stim THEN stim.budget ELSE 0) /\ UNCHANGED stim
 Run == /\ phase = "run" /\ s.status = "running"
        /\ s' = Step(s) /\ UNCHANGED <<stim, phase>>
-Next == PickLead \/ PickProg \/ Start \/ Run
+Next == PickLead \/ PickProg \/ PickBudget \/ Start \/ Run
 
 Vector == [pre |-> PreOf(stim.p), plain |-> Plains[stim.p], trailer |-> stim.trailer, form |-> stim.form, lead |-> stim.lead,
-           ws |-> stim.ws, blank |-> stim.blank, p |-> stim.p, init |-> <<>>, maxops |-> 0,
+           ws |-> stim.ws, blank |-> stim.blank, p |-> stim.p, init |-> <<>>, maxops |-> s.maxops, nops |-> s.nops,
            status |-> s.status, errs |-> s.errs, ost |-> s.ost, dst |-> s.dst,
            heap |-> s.heap.c, nheap |-> s.heap.n]
 Emit == (phase = "run" /\ s.status \in {"done", "error"}) => CSVWrite("%1$s", <<ToJson(Vector)>>, OutFile)
